@@ -398,9 +398,9 @@ func (u *Universe) zero(t types.Type) string {
 		}
 		return "0"
 	case *types.Slice:
-		return "nil_slice"
+		return "(mk_slice 0 0 0 0)"
 	case *types.Interface, *types.TypeParam:
-		return "nil_iface"
+		return "(mk_iface 0 (VRef 0))"
 	case *types.Struct:
 		s := u.structSortOf(t)
 		if len(s.fields) == 0 {
